@@ -498,4 +498,14 @@ example : (run (init 2 false) (demoGrow ++ [Op.ctorH 1 9, Op.merge 1 0] ++ endOp
 example : resumed (run (init 2 true) [Op.ctorH 0 1, Op.addH 0 2, Op.clear 0, Op.ctorH 1 3, Op.addH 1 4, Op.addH 1 5,
     Op.await 1 99]) = [5, 1, 2, 3, 4, 99] := by decide
 
+/-- the yield idiom in coroutine mode: own handle (99) first, handles 1 2 3 behind it; the last one (3) runs first, then
+the own handle — queued once — gets control back while 1 and 2 are still queued; nothing new was handed in -/
+example : resumed (run (init 1 true) [Op.ctorH 0 99, Op.addH 0 1, Op.addH 0 2, Op.addH 0 3, Op.await 0 99]) = [3, 99]
+    ∧ (run (init 1 true) [Op.ctorH 0 99, Op.addH 0 1, Op.addH 0 2, Op.addH 0 3, Op.await 0 99]).queue = [1, 2]
+    ∧ (run (init 1 true) [Op.ctorH 0 99, Op.addH 0 1, Op.addH 0 2, Op.addH 0 3, Op.await 0 99]).given = [99, 1, 2, 3] := by
+  decide
+/-- own handle in the middle, normal mode (a coroutine outside `coro_queue`): everything has run, each once -/
+example : resumed (run (init 1 false) [Op.ctorH 0 1, Op.addH 0 100, Op.addH 0 2, Op.addH 0 3, Op.await 0 100])
+    = [3, 1, 100, 2] := by decide
+
 end Cocls.SP
